@@ -219,7 +219,7 @@ func loadNormalised(lc core.LoadConfig) (*core.Program, map[string][]byte, []str
 		if pk == nil {
 			break
 		}
-		res, err := norm.Normalise(pk, base, cur.ReadFile)
+		res, err := norm.Normalise(pk, base, cur.ReadFile, round)
 		if err != nil || len(res.Overlay) == 0 {
 			break
 		}
